@@ -27,6 +27,12 @@ def cfg(n, deleted, gap=False):
     from .common import cfg_basic, cfg_diverged
 
     flags = {i: "\\Deleted" for i in deleted}
+    if gap == "ns":
+        # a destination that was deleted but is kept as a \\Noselect placeholder (it has a child): nothing may be put into it
+        c = cfg_basic(PROP, n, others=("other", "p", "p/c"), flags=flags, other_msgs=1, name=f"c05-ns-{n}-{'-'.join(map(str, deleted))}")
+        c["snapshot_refused"] = True
+        c["prelude"] = [{"s": "B", "op": "delete", "m": "p"}]
+        return c
     if gap:
         # non-initial state: n-2 old messages, the former top one expunged, two later arrivals (MH key != UID)
         c = cfg_diverged(PROP, n - 2, 2, flags=flags, other_msgs=1, name=f"c05-div-{n}-{'-'.join(map(str, deleted))}")
@@ -79,12 +85,18 @@ def cases(tier):
                     cmds.append({"s": "A", "op": "copy", "set": st, "dst": "INBOX"})
                 for c in cmds:
                     yield (n, list(deleted), [sel, c], True)
+    # destinations that exist only as a \\Noselect placeholder
+    for deleted in ([], [1]):
+        sel = {"s": "A", "op": "select", "m": "INBOX"}
+        for c in ([{"s": "A", "op": "append", "m": "p", "flags": "\\Flagged"}, {"s": "A", "op": "append", "m": "p"}]
+                  + [{"s": "A", "op": op, "set": st, "dst": "p", "uid": uid} for op in ("copy", "move") for st in ("1", "1:*", "2") for uid in (False, True)]):
+            yield (2, list(deleted), [sel, c], "ns")
 
 
 def work(unit):
     fails, outcomes, n_eval = [], set(), 0
     for n, deleted, hist, *gap in unit:
-        st = HState(cfg(n, deleted, bool(gap)))
+        st = HState(cfg(n, deleted, gap[0] if gap else False))
         try:
             for ev in hist:
                 st.apply(ev)
@@ -95,7 +107,7 @@ def work(unit):
             outcomes.add((hist[1]["op"], tagged[-3] if len(tagged) >= 3 else None))
             for f in st.failures:
                 if any(f.rule.startswith(p) for p in RULES):
-                    f.replay = {"driver": "c05", "n": n, "deleted": deleted, "history": hist, "gap": bool(gap)}
+                    f.replay = {"driver": "c05", "n": n, "deleted": deleted, "history": hist, "gap": gap[0] if gap else False}
                     f.details = dict(f.details, op=hist[1]["op"], ro=hist[0]["op"] == "examine")
                     fails.append(f)
         finally:
@@ -152,10 +164,10 @@ def run(tier, seed, jobs) -> Result:
     # build templates in the parent
     seen = set()
     for n, deleted, _, *gap in allc:
-        key = (n, tuple(deleted), bool(gap))
+        key = (n, tuple(deleted), gap[0] if gap else False)
         if key not in seen:
             seen.add(key)
-            cfg(n, deleted, bool(gap))
+            cfg(n, deleted, gap[0] if gap else False)
     units = [allc[i : i + 25] for i in range(0, len(allc), 25)]
     units = seeded_order(units, seed)
     fails, evals = [], 0
@@ -193,7 +205,7 @@ def run(tier, seed, jobs) -> Result:
 def replay(rec):
     rp = rec["replay"]
     if rp.get("driver") == "c05":
-        f, _, _ = work([(rp["n"], rp["deleted"], rp["history"]) + ((True,) if rp.get("gap") else ())])
+        f, _, _ = work([(rp["n"], rp["deleted"], rp["history"]) + ((rp["gap"],) if rp.get("gap") else ())])
         return f
     from .hcommon import replay_h
 
